@@ -1,39 +1,12 @@
-import FitModel.DecoderApi
-import FitModel.DecoderApiSpec
-import FitModel.Expand
-import FitModel.Generated.ProfileArith
+import FitModel.DecoderApiDefault
 import Driver.DecApiShow
 /-!
-THE DECODER'S DEFAULT CONFIGURATION — `decoder.New(r)`: standard factory, component expansion ON (sub-fields, scales and
-offsets, accumulation) — as a COMPOSITION of two models that are each tied and proved on their own:
-
-* the decoder-API model (C) (`FitModel/DecoderApi.lean`) run with the regenerated standard factory and expansion OFF
-  (every byte consumed, every record framed, every wire field decoded, timestamps, developer fields, look-ups, errors);
-* C05's model of the tail of `decodeFields` (`Fit.Expand.decodeTail`: `collectAccumulableValues`, sub-field substitution,
-  `expandComponents` with the REAL component / sub-field graph and scale / offset arithmetic of `Generated/ProfileArith.lean`),
-  applied to every decoded message in order, the accumulator living for one sequence (`d.accumulator.Reset()` in `reset()`).
-
-That the composition is the decoder: expansion appends fields to the message and updates the accumulator, nothing else —
-it happens after the wire fields of the record are read and before the message is handed out; file_id, developer_data_id
-and field_description (the messages the decoder itself reads back) have no components. Tied by the `f:std` lines with `exp1`
-of the families `decapi` / `dechist`.
+Printing of the decoder's DEFAULT CONFIGURATION as modelled by `FitModel/DecoderApiDefault.lean` (the decoder-API model
+with the standard factory and expansion off, composed with C05's expansion model over the real profile): the `f:std` lines
+with `exp1` of the families `decapi` / `dechist`, in the canonical text of those families.
 -/
 namespace Drv.DecApiStd
-open Drv Fit.DecApi Fit.Value Fit.Expand
-
-def profile : Profile := Fit.Gen.PA.mesgs
-
-/-- a field the decoder decoded, with the `FieldBase` of the standard factory (accumulate flag, scale, offset from the
-regenerated profile; base type / array / Bool as the decoder decided them) -/
-def toField (mesgNum : Nat) (f : DField) : Fit.Msg.Field :=
-  let base : Fit.Msg.FieldBase :=
-    match (if f.known then lookup profile mesgNum f.num else none) with
-    | some fl => { baseOf fl with baseType := f.bt, array := f.array, profileBool := f.isBool }
-    | none => { num := f.num, baseType := f.bt, array := f.array, nameKnown := f.known, profileBool := f.isBool }
-  { base := some base, value := f.value, isExpanded := f.expanded }
-
-def toMessage (m : Msg) : Fit.Msg.Message :=
-  { num := m.num, fields := m.fields.map (toField m.num), devFields := m.devs.map fun d => ⟨d.idx, d.num, d.value⟩ }
+open Drv Fit.DecApi Fit.Value Fit.DecApi.Default
 
 def showField (f : Fit.Msg.Field) : String :=
   match f.base with
@@ -43,49 +16,29 @@ def showField (f : Fit.Msg.Field) : String :=
       (if f.isExpanded then "x" else "")
     s!"F{b.num}:{hexByte b.baseType}:{if s.isEmpty then "-" else s}:{printValue f.value}"
 
-def showMessage (header : Nat) (m : Fit.Msg.Message) : String :=
-  "M" ++ toString m.num ++ "h" ++ toString header ++ "{" ++ ";".intercalate (m.fields.map showField) ++ "|" ++
-    ";".intercalate (m.devFields.map fun d => s!"D{d.devIdx}.{d.num}:{printValue d.value}") ++ "}"
+def showXMsg (x : XMsg) : String :=
+  "M" ++ toString x.msg.num ++ "h" ++ toString x.header ++ "{" ++ ";".intercalate (x.msg.fields.map showField) ++ "|" ++
+    ";".intercalate (x.msg.devFields.map fun d => s!"D{d.devIdx}.{d.num}:{printValue d.value}") ++ "}"
 
-/-- the expansion state of the decoder object: the accumulator and the (expanded) messages of the sequence so far -/
-structure XSt where
-  acc : Fit.Accum.Acc := []
-  msgs : List String := []
+def showXEvent : XEvent → String
+  | .mesgDef d => Drv.DecApi.showDef d
+  | .mesg m => showXMsg m
 
-/-- options under which (C) is run: expansion off, every message visible -/
-def inner (o : Opts) : Opts := { o with exp := false, ml := true, bo := false, fac := Drv.DecApi.stdFactory }
-
-def innerOp (o : Opts) : Op → Op
-  | .reset _ b => .reset (inner o) b
-  | op => op
-
-/-- one call: expand the messages it decoded, print its result with the sequence's expanded messages -/
-def walkOne (verbose : Bool) (o : Opts) (x : XSt) (op : Op) (r : Option (Out × List Event)) : XSt × String :=
-  match r with
-  | none =>
-    (match op with | .checkIntegrity | .reset _ _ => {} | _ => x, "*")
+def showTok (verbose : Bool) (op : Op) : Option (XOut × List XEvent) → String
+  | none => "*"
   | some (out, evs) =>
-    let (x, shown) := evs.foldl (fun (p : XSt × List String) e =>
-      match e with
-      | .mesgDef d => (p.1, if o.dl then p.2 ++ [Drv.DecApi.showDef d] else p.2)
-      | .mesg m =>
-        let (acc, em) := decodeTail componentValue profile true p.1.acc (toMessage m)
-        let s := showMessage m.header em
-        ({ acc := acc, msgs := p.1.msgs ++ [s] }, if o.ml then p.2 ++ [s] else p.2)) (x, [])
+    let shown := evs.map showXEvent
     let evTok := if shown.isEmpty then "" else if verbose then "/e" ++ Drv.DecApi.digest shown true
       else s!"/e{shown.length}.{Drv.DecApi.digest shown false}"
-    match out with
-    | .fit f =>
-      let ms := if o.bo then [] else x.msgs
-      ({}, s!"ok:{Drv.DecApi.showHdr f.hdr}.{f.crc}:{ms.length}:{Drv.DecApi.digest ms verbose}" ++ evTok)
-    | .done => ({}, "ok" ++ evTok)
-    | .integrity .. => ({}, Drv.DecApi.showOut verbose op out ++ evTok)
-    | _ => (x, Drv.DecApi.showOut verbose op out ++ evTok)
+    (match out with
+      | .fit hdr msgs crc =>
+        s!"ok:{Drv.DecApi.showHdr hdr}.{crc}:{msgs.length}:{Drv.DecApi.digest (msgs.map showXMsg) verbose}"
+      | .other o => Drv.DecApi.showOut verbose op o) ++ evTok
 
-def walk (verbose : Bool) (o : Opts) : XSt → List (Op × Option (Out × List Event)) → List String
-  | _, [] => []
-  | x, (op, r) :: rest =>
-    let (x', s) := walkOne verbose o x op r
-    s :: walk verbose o x' rest
+def answer (verbose : Bool) (o : Opts) (bytes : List Nat) (ops : List Op) : List String :=
+  (ops.zip (Default.run o bytes ops)).map fun (op, r) => showTok verbose op r
+
+def specToks (verbose : Bool) (o : Opts) (bytes : List Nat) (ops : List Op) : List String :=
+  (ops.zip (Default.spec o bytes ops)).map fun (op, r) => showTok verbose op r
 
 end Drv.DecApiStd
